@@ -40,3 +40,5 @@ var $ok_reccopy = (dst, src) => {
 var $bad_reccopy = (dst, src) => {
     for (var i = 1; i < fields.length; i++) { var f = fields[i]; dst[f.prop] = src[f.prop]; }
 };
+var $ok_tw = (c, v) => { if (c.$closed) { $throwRuntimeError("x"); } $curGoroutine.panicStack.push(v); return v; };
+var $bad_tw = (c, v) => { if (c.$closed && v > 0) { $throwRuntimeError("x"); } $curGoroutine.panicStack.push(v); return v; };
